@@ -217,6 +217,65 @@ def identity_through_start_client(report, rng, keys):
         relay.close()
 
 
+def handshake_headers_case(report, rng, keys):
+    """the real websocket endpoint (NostrAPI.on_websocket behind falcon's ASGI conductor): whatever the client writes into the
+    headers of its own handshake (Host, X-Forwarded-Host / -Proto, Forwarded, Origin), an AUTH answer made out to a relay URL
+    the relay is not configured to answer to leaves the connection anonymous — a man in the middle shows the victim this
+    connection's challenge, the victim answers *his* relay, he forwards the answer"""
+    import falcon.testing
+    from lib.proto import make_sql_relay
+    from nostr_relay import web, auth
+
+    auth.time = lambda: NOW
+    relay = make_sql_relay(authentication={"enabled": True, "relay_urls": URLS, "actions": {"save": "w", "query": "a"}})
+    try:
+        sk = keys[0]
+        relay.set_roles(sk.public_key.hex(), "w")
+        app = web.create_app(storage=relay.storage)
+        foreign = rng.choice(["relay.evil.example", "evil.example:7777", "localhost.evil.example"])
+
+        async def attempt(relay_tag, ws_kwargs):
+            """True = the connection obtained the identity (its writer-only EVENT was accepted)"""
+            note = relay.signed_event(sk, kind=1, content="note %s %r" % (relay_tag, sorted(ws_kwargs)))
+            conductor = falcon.testing.ASGIConductor(app)
+            async with conductor.simulate_ws("/", **ws_kwargs) as ws:
+                hello = await ws.receive_json()
+                answer = build(rng, sk, relay=relay_tag, challenge=hello[1])
+                await ws.send_json(["AUTH", answer])
+                await ws.send_json(["EVENT", note])
+                for _ in range(6):
+                    reply = await ws.receive_json()
+                    if reply[0] == "OK":
+                        return bool(reply[2])
+            return None
+
+        variants = [
+            ("proper answer, plain handshake", URLS[0], {"host": "localhost"}, True),
+            ("foreign answer, plain handshake", "ws://" + foreign, {"host": "localhost"}, False),
+            ("foreign answer, Host header names the foreign relay", "ws://" + foreign, {"host": foreign}, False),
+            ("foreign answer, X-Forwarded-Host / -Proto name the foreign relay", "wss://" + foreign,
+             {"host": "localhost", "headers": {"X-Forwarded-Host": foreign, "X-Forwarded-Proto": "https"}}, False),
+            ("foreign answer, Forwarded header names the foreign relay", "wss://" + foreign,
+             {"host": "localhost", "headers": {"Forwarded": "for=1.2.3.4;host=%s;proto=https" % foreign}}, False),
+            ("foreign answer, Origin names the foreign relay", "wss://" + foreign,
+             {"host": "localhost", "headers": {"Origin": "https://" + foreign}}, False),
+        ]
+        for label, tag, kw, want in variants:
+            try:
+                got = relay.run(asyncio.wait_for(attempt(tag, kw), 20))
+            except Exception as ex:
+                raise common.MachineryBroken("websocket handshake harness failed (%s): %r" % (label, ex))
+            payload = {"case": "handshake", "variant": label, "relay_tag": tag, "handshake": kw}
+            if want and got is not True:
+                report.property_failure("a correct NIP-42 answer over the real websocket endpoint did not authenticate", payload, None)
+            if not want and got:
+                report.property_failure("an AUTH answer made out to %s obtained the identity (%s)" % (tag, label), payload, None)
+            report.case(("handshake", label), nontrivial=not want, sample={"variant": label, "authenticated": got})
+            report.count("handshake_variants")
+    finally:
+        relay.close()
+
+
 def challenge_source(report):
     """a challenge must not be a function of any state an outsider can reconstruct: re-seeding the process-wide
     pseudo-random generators (random, numpy-style seeding is not available here) must not reproduce challenges, and two
@@ -271,6 +330,7 @@ def run(report, tier, seed):
         challenge_source(report)
         try:
             identity_through_start_client(report, rng, keys)
+            handshake_headers_case(report, rng, keys)
         except ImportError:
             report.count("identity_check_skipped")
     finally:
